@@ -294,7 +294,16 @@ def change_cases(ctx):
             if k in t_old:
                 t_new[k] = t_old[k]
         a = _net3(el, t_old)
-        pp.create_std_type(a, t_old, "OLD", el); pp.create_std_type(a, t_new, "NEW", el)
+        # history: "new" = change to another type; "redefined" = the element's type is redefined under the same name
+        # (create_std_type overwrite=True); "edited" = the element's parameters were edited by hand; in the last two
+        # change_std_type is called with the name the element already carries and must still write every parameter
+        hist = rng.choice(["new", "new", "redefined", "edited"])
+        tn = "NEW" if hist == "new" else "OLD"
+        if hist == "edited":
+            t_new = dict(t_old)
+        pp.create_std_type(a, t_old, "OLD", el)
+        if hist == "new":
+            pp.create_std_type(a, t_new, "NEW", el)
         user = {}
         if el != "line" and "tap_min" in t_old and "tap_max" in t_old and rng.random() < 0.6:
             user["tap_pos"] = int(rng.randint(int(t_old["tap_min"]), int(t_old["tap_max"])))
@@ -305,12 +314,19 @@ def change_cases(ctx):
         except Exception:
             ctx.count("change_skipped")
             continue
+        if hist == "redefined":
+            pp.create_std_type(a, t_new, "OLD", el, overwrite=True)
+        elif hist == "edited":
+            for p in rng.sample(ELS[el][1], 2):
+                if p in a[el].columns and isinstance(t_old[p], (int, float)) and not p.startswith("vn_"):
+                    a[el].at[0, p] = float(t_old[p]) * 2 + 1
+        ctx.count("change_history_" + hist)
         cols = list(a[el].columns)
         r0 = {c: ck.canon_cell(a[el][c].values[0]) for c in cols}
         b = copy.deepcopy(a)
-        pp.change_std_type(a, 0, "NEW", el)
+        pp.change_std_type(a, 0, tn, el)
         r1 = {c: ck.canon_cell(a[el][c].values[0]) for c in a[el].columns}
-        case = {"el": el, "old": t_old, "new": t_new, "user_args": user, "columns": cols}
+        case = {"el": el, "old": t_old, "new": t_new, "history": hist, "target_name": tn, "user_args": user, "columns": cols}
         ctx.case(case, nontrivial=len(t_new) > len(ELS[el][1]))
         ctx.count("change_" + el)
         # spec 1: every parameter of the type is in the row
@@ -320,11 +336,11 @@ def change_cases(ctx):
             k = "C25-change-std-type-skips-missing-column" if all(p not in cols for p in notset) else "spec"
             ctx.violation(k, "change_std_type: parameters %s of the new type are not in the row" % notset, case)
         # spec 2: behaves like a fresh element of the new type
-        pp.create_std_type(b, t_new, "NEW", el)
+        pp.create_std_type(b, t_new, tn, el, overwrite=True)
         b[el].drop(b[el].index, inplace=True)
         with warnings.catch_warnings():
             warnings.simplefilter("ignore")
-            single(b, std_type="NEW", **nodes, **({"tap_pos": user["tap_pos"]} if "tap_pos" in user else {}))
+            single(b, std_type=tn, **nodes, **({"tap_pos": user["tap_pos"]} if "tap_pos" in user else {}))
         rf = {c: ck.canon_cell(b[el][c].values[0]) for c in b[el].columns}
         stale = [c for c in cols if c not in SKIP and c not in ("tap_pos", "tap2_pos") and not same(r1.get(c), rf.get(c))]
         if stale:
@@ -339,7 +355,7 @@ def change_cases(ctx):
             if _res_equal(a, b, el) is False:
                 ctx.violation("spec", "changed element and fresh element of the new type give different results", case)
         q = [c for c in cols if c not in ("name", "geo")]
-        terms.append("run_change %s %s %s %s %s" % (cq.lst([cq.s(c) for c in cols]), lib_term({"NEW": t_new}), cq.s("NEW"),
+        terms.append("run_change %s %s %s %s %s" % (cq.lst([cq.s(c) for c in cols]), lib_term({tn: t_new}), cq.s(tn),
                                                     amap({c: v for c, v in r0.items() if c not in ("name", "geo")}), cq.lst([cq.s(c) for c in q])))
         keep.append((case, q, r1))
     model = ctx.coq_eval("c25ch", "Base.QN C24.Model C25.Model", terms, shard=60)
@@ -350,10 +366,58 @@ def change_cases(ctx):
             ctx.disagreement("change_std_type row: " + "; ".join(bad)[:400], case)
 
 
+# ------------------------------------------------------------------ (D) create_lines with a heterogeneous list of std types
+def lines_list_cases(ctx):
+    """every row created by create_lines(std_type=[...]) holds the parameters of *its own* type (same as create_line)"""
+    rng = ctx.rng
+    acc = inspect.signature(pp.create_line_from_parameters).parameters
+    basic = list(_empty().std_types["line"])
+    for _ in range(ctx.n(40, 500)):
+        net = _empty()
+        pp.create_buses(net, 5, 20.0)
+        names = []
+        for k in range(rng.randint(1, 3)):
+            ty = rand_type(rng, "line")
+            if rng.random() < 0.5:
+                for p in ("r0_ohm_per_km", "x0_ohm_per_km", "c0_nf_per_km"):
+                    ty[p] = ck.LINE_STD[p] * (k + 1)
+            pp.create_std_type(net, ty, "T%d" % k, "line")
+            names.append("T%d" % k)
+        names += rng.sample(basic, rng.randint(0, 2))
+        n = rng.randint(2, 5)
+        sel = [rng.choice(names) for _ in range(n)]
+        fb = [rng.randrange(5) for _ in range(n)]
+        tb = [(b + 1 + rng.randrange(4)) % 5 for b in fb]
+        a = copy.deepcopy(net)
+        with warnings.catch_warnings():
+            warnings.simplefilter("ignore")
+            pp.create_lines(net, fb, tb, 1.5, sel)
+            for i in range(n):
+                pp.create_line(a, fb[i], tb[i], 1.5, sel[i])
+        case = {"kind": "create_lines std_type list", "types": {nm: dict(net.std_types["line"][nm]) for nm in set(sel)}, "std_type": sel}
+        ctx.case(case, nontrivial=len(set(sel)) > 1)
+        ctx.count("lines_list_%s" % ("mixed" if len(set(sel)) > 1 else "homogeneous"))
+        bad = []
+        for i, nm in enumerate(sel):
+            ty = net.std_types["line"][nm]
+            rb = _row(net, "line", i); rs = _row(a, "line", i)
+            for p in acc:
+                if p in ("alpha", "endtemp_degree") or p not in ck.LINE_STD:
+                    continue                     # alpha / endtemp_degree: recorded finding C25-create-line-skips-alpha-endtemp
+                want = ck.canon_cell(ty[p]) if p in ty else (0.0 if p == "g_us_per_km" else None)
+                if not same(rb.get(p), want):
+                    bad.append("row %d (%s): %s = %r, type has %r" % (i, nm, p, rb.get(p), want))
+                if not same(rb.get(p), rs.get(p)):
+                    bad.append("row %d (%s): %s = %r, create_line gives %r" % (i, nm, p, rb.get(p), rs.get(p)))
+        if bad:
+            ctx.violation("spec", "create_lines with a list of std types: " + "; ".join(bad[:4]), case)
+
+
 def run(ctx):
     lib_cases(ctx)
     created_cases(ctx)
     change_cases(ctx)
+    lines_list_cases(ctx)
 
 
 def replay(ctx, rec):
